@@ -45,25 +45,25 @@ type c20Parked struct {
 }
 
 type c20Chan struct {
-	d        *c20
-	ix       int
-	group    [4]byte
-	port     int
-	peer     *multicast.UDPPeer
-	buf      *sonic.ByteBuffer
-	seqr     *sonic.SlotSequencer
-	off      *sonic.SlotOffsetter
-	maxSlots int
-	maxBytes int
-	parked   []c20Parked // model, in save order
-	next     int         // next sequence number the application expects
-	n        int         // packets in the feed
-	got      []int       // delivered sequence numbers
-	rbuf     []byte
-	withheld int // a sequence number the publisher holds back until late (-1: none)
-	sinceEmpty int // bytes pushed since the sequencer was last empty
+	d            *c20
+	ix           int
+	group        [4]byte
+	port         int
+	peer         *multicast.UDPPeer
+	buf          *sonic.ByteBuffer
+	seqr         *sonic.SlotSequencer
+	off          *sonic.SlotOffsetter
+	maxSlots     int
+	maxBytes     int
+	parked       []c20Parked // model, in save order
+	next         int         // next sequence number the application expects
+	n            int         // packets in the feed
+	got          []int       // delivered sequence numbers
+	rbuf         []byte
+	withheld     int // a sequence number the publisher holds back until late (-1: none)
+	sinceEmpty   int // bytes pushed since the sequencer was last empty
 	popsNonEmpty int
-	stuck bool
+	stuck        bool
 }
 
 type c20 struct {
